@@ -5,6 +5,7 @@ mod c08;
 mod c10;
 mod c17;
 mod c18;
+mod c19;
 mod cssgen;
 mod cssmodel;
 mod common;
@@ -30,6 +31,7 @@ fn main() {
         "c10" => c10::explore(thorough, &out),
         "c17" => c17::explore(thorough, &out),
         "c18" => c18::explore(thorough, &out),
+        "c19" => c19::explore(thorough, &out),
         "replay" => {
             let engine = args.get(2).expect("engine");
             let file = args.get(3).expect("file");
@@ -41,6 +43,7 @@ fn main() {
                 "c10" => c10::replay(&v),
                 "c17" => c17::replay(&v),
                 "c18" => c18::replay(&v),
+                "c19" => c19::replay(&v),
                 _ => panic!("unknown engine"),
             };
             println!("{}", r);
